@@ -86,11 +86,15 @@ def parse_url(url: str) -> ParsedURL:
     # Normalize path (default to '/')
     path = parsed.path if parsed.path else "/"
 
+    # IPv6 literals must keep their brackets in the authority component
+    # (parsed.hostname has them stripped)
+    host = f"[{parsed.hostname}]" if ":" in parsed.hostname else parsed.hostname
+
     # Construct normalized URL
     normalized = urlunparse(
         (
             "gemini",  # Always use 'gemini' scheme
-            f"{parsed.hostname}:{port}" if port != DEFAULT_PORT else parsed.hostname,
+            f"{host}:{port}" if port != DEFAULT_PORT else host,
             path,
             parsed.params,
             parsed.query,
